@@ -918,6 +918,30 @@ def _same_string_offsets(P, R, controls=False):
                     if src is not None and _root_local(src) in alias and src.get("k") in ("Path", "AddrOf", "Unary", "DropTemps"):
                         alias.add(lid)
             foreign = {l for l in srcs if l not in alias}
+            if foreign:
+                # the length of a *pattern that was matched against the sliced string* (`s.ends_with(ext)` .. `s.len() - ext.len()`,
+                # `s.find(pat)` .. `+ pat.len()`) is a char boundary of s by construction
+                matched = set()
+                for y in f.walk():
+                    if y.get("k") == "MethodCall" and y.get("method") in ("ends_with", "starts_with", "strip_suffix", "strip_prefix", "find", "rfind",
+                                                                        "split_once", "rsplit_once", "match_indices", "contains") \
+                            and _root_local(y["recv"]) in alias and y.get("args"):
+                        for z in subnodes(y["args"][0]):
+                            if z.get("k") == "Path" and "local" in z:
+                                matched.add(z["local"])
+                                # a pattern bound by destructuring a tuple / reference of the same value
+                                for src, _ in pv.src.get(z["local"], []):
+                                    if src is not None:
+                                        for w in subnodes(src):
+                                            if w.get("k") == "Path" and "local" in w:
+                                                matched.add(w["local"])
+                # ... or was *selected* by such a match (`TABLE.iter().find(|(ext, _)| s.ends_with(ext))`)
+                for l in list(foreign):
+                    for src, _ in pv.src.get(l, []):
+                        if src is not None and any(y.get("k") == "MethodCall" and y.get("method") in ("ends_with", "starts_with", "strip_suffix", "strip_prefix")
+                                                   and _root_local(y["recv"]) in alias for y in subnodes(src)):
+                            matched.add(l)
+                foreign = {l for l in foreign if l not in matched}
             if not foreign:
                 # the offset may arrive as a plain number through a parameter (a `skip_bytes(line, n)` helper): then the same question is
                 # asked at every call site, between the argument for the string and the argument for the number
